@@ -1,8 +1,12 @@
+use std::collections::HashSet;
 use std::fs::{self, File};
 use std::io::{BufRead, BufReader};
 use std::path::{Path, PathBuf};
 
+use crate::engine::core::ColumnReader;
+use crate::engine::core::column::compression::CompressedColumnIndex;
 use crate::engine::core::event::event::Event;
+use crate::engine::core::segment::segment_id::{LEVEL_SPAN, SegmentId};
 use crate::engine::core::wal::wal_entry::WalEntry;
 use crate::engine::shard::context::ShardContext;
 use tracing::{info, warn};
@@ -33,8 +37,16 @@ impl WalRecovery {
             "WAL files found for recovery"
         );
 
+        // A flush publishes its segment before it deletes the WAL files it covers. After a
+        // crash in between, those entries are already durable: replaying them would store
+        // (and count) every such event twice.
+        let flushed = match Self::wal_event_id_range(&wal_files) {
+            Some(range) => Self::flushed_event_ids(ctx, range),
+            None => HashSet::new(),
+        };
+
         for file in wal_files {
-            self.replay_log_file(ctx, &file)?;
+            self.replay_log_file(ctx, &file, &flushed)?;
         }
 
         info!(
@@ -58,7 +70,88 @@ impl WalRecovery {
         Ok(files)
     }
 
-    fn replay_log_file(&self, ctx: &mut ShardContext, path: &Path) -> std::io::Result<()> {
+    /// Smallest and largest non-zero event id found in the WAL files, if any.
+    fn wal_event_id_range(wal_files: &[PathBuf]) -> Option<(u64, u64)> {
+        let mut range: Option<(u64, u64)> = None;
+        for path in wal_files {
+            let Ok(file) = File::open(path) else {
+                continue;
+            };
+            for line in BufReader::new(file).lines() {
+                let Ok(entry) = serde_json::from_str::<WalEntry>(&line.unwrap_or_default())
+                else {
+                    continue;
+                };
+                let id = entry.event_id.raw();
+                if id != 0 {
+                    range = Some(range.map_or((id, id), |(lo, hi)| (lo.min(id), hi.max(id))));
+                }
+            }
+        }
+        range
+    }
+
+    /// Event ids within `range` that are stored in the published L0 (flushed, not yet
+    /// compacted) segments. Unreadable columns are skipped: the worst case is the old
+    /// behaviour (a duplicate).
+    fn flushed_event_ids(ctx: &ShardContext, (lo, hi): (u64, u64)) -> HashSet<u64> {
+        let mut ids = HashSet::new();
+        let labels: Vec<String> = ctx.segment_ids.read().unwrap().clone();
+        for label in labels {
+            if !SegmentId::from_str(&label).is_some_and(|s| s.id < LEVEL_SPAN) {
+                continue;
+            }
+            let segment_dir = ctx.base_dir.join(&label);
+            let Ok(entries) = fs::read_dir(&segment_dir) else {
+                continue;
+            };
+            for entry in entries.flatten() {
+                let name = entry.file_name().to_string_lossy().to_string();
+                let Some(uid) = name.strip_suffix("_event_id.zfc") else {
+                    continue;
+                };
+                let Ok(index) = CompressedColumnIndex::load_from_path(&entry.path()) else {
+                    continue;
+                };
+                for zone_id in index.entries.keys() {
+                    match ColumnReader::load_for_zone_snapshot(
+                        &segment_dir,
+                        &label,
+                        uid,
+                        "event_id",
+                        *zone_id,
+                        None,
+                    ) {
+                        Ok(snapshot) => {
+                            let values = snapshot.into_values();
+                            ids.extend((0..values.len()).filter_map(|idx| {
+                                values
+                                    .get_u64_at(idx)
+                                    .or_else(|| values.get_i64_at(idx).map(|v| v as u64))
+                                    .or_else(|| {
+                                        values.get_str_at(idx).and_then(|s| s.parse().ok())
+                                    })
+                                    .filter(|id| (lo..=hi).contains(id))
+                            }));
+                        }
+                        Err(err) => warn!(
+                            target: "wal_recovery::flushed_event_ids",
+                            %label, uid, zone_id, %err,
+                            "Could not read event ids of published segment"
+                        ),
+                    }
+                }
+            }
+        }
+        ids
+    }
+
+    fn replay_log_file(
+        &self,
+        ctx: &mut ShardContext,
+        path: &Path,
+        flushed: &HashSet<u64>,
+    ) -> std::io::Result<()> {
         info!(
             target: "wal_recovery::replay_log_file",
             shard_id = self.shard_id,
@@ -74,6 +167,10 @@ impl WalRecovery {
             match line_result {
                 Ok(line) => match serde_json::from_str::<WalEntry>(&line) {
                     Ok(entry) => {
+                        if !entry.event_id.is_zero() && flushed.contains(&entry.event_id.raw()) {
+                            continue;
+                        }
+
                         let mut event = Event {
                             timestamp: entry.timestamp,
                             context_id: entry.context_id,
